@@ -534,6 +534,26 @@ func (s *Sim) adopt(g uintptr) *Task {
 	return t
 }
 
+// Exiting reports whether the calling task is being torn down: it was killed at
+// the end of a run and is running its deferred functions on the way out. The
+// lock shims then do nothing at all - the run is over, and a deferred Lock on a
+// real mutex that some other killed task still holds would block the goroutine
+// for real (not durably, in synctest's terms) and hang the bubble.
+//
+//go:norace
+func Exiting() bool {
+	s := cur
+	if s == nil || !s.finished {
+		return false
+	}
+	g := getg()
+	if g == s.schedG {
+		return false
+	}
+	t := s.lookup(g)
+	return t != nil && t.exiting
+}
+
 // Point parks the calling task before an operation of the given kind on obj.
 // Outside a run it does nothing.
 //
